@@ -63,15 +63,15 @@ Proof.
 Qed.
 
 (* without spreads no variant gets a mixin *)
-Lemma resolve_no_spread S frs : forall g f sels r x,
-  no_spread g sels = true -> resolve f S frs sels r = Ok x -> snd x = [].
+Lemma resolve_no_spread S frs : forall g f under sels r x,
+  no_spread g sels = true -> resolve f S frs under sels r = Ok x -> snd x = [].
 Proof.
-  induction g as [|g IH]; intros f sels r x Hn Hr; [discriminate Hn|].
+  induction g as [|g IH]; intros f under sels r x Hn Hr; [discriminate Hn|].
   destruct f as [|f]; [discriminate Hr|]. simpl in Hn, Hr.
   assert (G : forall sels l0 x, forallb (fun s => match s with
                         | SField _ _ _ _ _ => true | SSpread _ _ => false
                         | SInline _ _ sub => no_spread g sub end) sels = true ->
-     fold_left (resolve_step (resolve f S frs) S frs r) sels (Ok (l0, [])) = Ok x -> snd x = []).
+     fold_left (resolve_step (resolve f S frs) S frs r under) sels (Ok (l0, [])) = Ok x -> snd x = []).
   { clear Hn Hr x sels. induction sels as [|s sels IHs]; intros l0 x Hn Hr; simpl in Hn, Hr.
     - inversion Hr. reflexivity.
     - apply andb_true_iff in Hn as [H1 H2]. destruct s as [al n c ms sub | n c | tc c sub]; try discriminate H1.
@@ -79,9 +79,9 @@ Proof.
       + simpl in Hr.
         destruct (inline_root_type S (match tc with Some tc0 => tc0 | None => r end) r) as [r'|];
           [| eapply IHs; eauto].
-        destruct (resolve f S frs sub r') as [q|m] eqn:Eq; simpl in Hr;
+        destruct (resolve f S frs (under || c) sub r') as [q|m] eqn:Eq; simpl in Hr;
           [| rewrite resolve_fold_err in Hr; discriminate].
-        rewrite (IH _ _ _ _ H1 Eq) in Hr. simpl in Hr. eapply IHs; eauto. }
+        rewrite (IH _ _ _ _ _ H1 Eq) in Hr. simpl in Hr. eapply IHs; eauto. }
   eapply G; eauto.
 Qed.
 
@@ -322,37 +322,36 @@ Proof.
 Qed.
 
 (* ---- a directly selected field survives flattening ---- *)
-Lemma flattenM_field_in S frs rt : forall g r sels fns ms al n c mx sub,
-  flattenM g S frs rt r sels = Some (fns, ms) -> In (SField al n c mx sub) sels ->
-  In (fnode_of al n c mx sub) fns.
+Lemma flattenM_field_in S frs rt : forall g r under sels fns ms al n c mx sub,
+  flattenM g S frs rt r under sels = Some (fns, ms) -> In (SField al n c mx sub) sels ->
+  In (fnode_of al n (under || c) mx sub) fns.
 Proof.
-  intros g r sels fns ms al n c mx sub Hf Hin. destruct g as [|g]; [discriminate Hf|]. simpl in Hf.
+  intros g r under sels fns ms al n c mx sub Hf Hin. destruct g as [|g]; [discriminate Hf|]. simpl in Hf.
   assert (G : forall sels l m fns ms,
-            fold_left (flattenM_step (flattenM g S frs rt) S frs rt r) sels (Some (l, m)) = Some (fns, ms) ->
+            fold_left (flattenM_step (flattenM g S frs rt) S frs rt r under) sels (Some (l, m)) = Some (fns, ms) ->
             (forall x, In x l -> In x fns) /\
-            (In (SField al n c mx sub) sels -> In (fnode_of al n c mx sub) fns)).
+            (In (SField al n c mx sub) sels -> In (fnode_of al n (under || c) mx sub) fns)).
   { clear. induction sels as [|s sels IH]; intros l m fns ms Hf; cbn [fold_left] in Hf.
     - inversion Hf; subst. split; [auto | intros []].
-    - destruct (flattenM_step (flattenM g S frs rt) S frs rt r (Some (l, m)) s) as [[l' m']|] eqn:Es;
+    - destruct (flattenM_step (flattenM g S frs rt) S frs rt r under (Some (l, m)) s) as [[l' m']|] eqn:Es;
         [| rewrite flattenM_fold_none in Hf; discriminate].
       destruct (IH _ _ _ _ Hf) as [I1 I2].
       assert (Hl : forall x, In x l -> In x l').
       { intros x Hx. unfold flattenM_step in Es.
         destruct s as [al' n' c' ms' sub' | n' c' | tc c' sub'].
         - inversion Es; subst. apply in_or_app. left; exact Hx.
-        - destruct c'; [discriminate|]. destruct (lookup_frag frs n'); [| discriminate].
+        - destruct (lookup_frag frs n'); [| discriminate].
           destruct (lookup_type S r); [| discriminate]. destruct (lookup_type S (fr_on f)); [| discriminate].
-          destruct (unpack_fragment S f (Some r)).
+          destruct (negb (under || c') && negb (unpack_fragment S f (Some r))).
+          + destruct (type_applies S rt (fr_on f)); [| discriminate]. inversion Es; subst. exact Hx.
           + destruct (String.eqb (fr_on f) r || (is_abstract t0 && is_sub_type S (fr_on f) r));
               destruct (type_applies S rt (fr_on f)); try discriminate.
-            * destruct (flattenM g S frs rt r (fr_sel f)) as [[? ?]|]; [| discriminate]. inversion Es; subst.
-              apply in_or_app. left; exact Hx.
+            * destruct (flattenM g S frs rt r (under || c') (fr_sel f)) as [[? ?]|]; [| discriminate].
+              inversion Es; subst. apply in_or_app. left; exact Hx.
             * inversion Es; subst. exact Hx.
-          + destruct (type_applies S rt (fr_on f)); [| discriminate]. inversion Es; subst. exact Hx.
-        - destruct c'; [discriminate|].
-          destruct (inline_root_type S (match tc with Some tc0 => tc0 | None => r end) r);
+        - destruct (inline_root_type S (match tc with Some tc0 => tc0 | None => r end) r);
             destruct (match tc with None => true | Some t => type_applies S rt t end); try discriminate.
-          + destruct (flattenM g S frs rt s sub') as [[? ?]|]; [| discriminate]. inversion Es; subst.
+          + destruct (flattenM g S frs rt s (under || c') sub') as [[? ?]|]; [| discriminate]. inversion Es; subst.
             apply in_or_app. left; exact Hx.
           + inversion Es; subst. exact Hx. }
       split; [intros x Hx; apply I1, Hl, Hx|].
@@ -363,7 +362,7 @@ Qed.
 
 Lemma flatten_field_in S frs rt g r sels fns al n c ms sub :
   flatten g S frs rt r sels = Some fns -> In (SField al n c ms sub) sels -> In (fnode_of al n c ms sub) fns.
-Proof. intros H. apply flatten_M in H. eapply flattenM_field_in; eauto. Qed.
+Proof. intros H Hin. apply flatten_M in H. apply (flattenM_field_in _ _ _ _ _ _ _ _ _ _ _ _ _ _ H Hin). Qed.
 
 Lemma has_typename_flatten S frs rt g r sels fns :
   has_typename sels = true -> flatten g S frs rt r sels = Some fns ->
@@ -388,7 +387,7 @@ Lemma variant_class_facts C S frs f2 g pa cn t sub tvs qc qp :
   parse_type_def (Datatypes.S f2) C S frs pa cn t sub true [] (Some tvs) = Ok (qc, qp, false) ->
   no_spread g sub = true ->
   exists fields0 pfl extra,
-    resolve f2 S frs sub t = Ok (fields0, []) /\
+    resolve f2 S frs false sub t = Ok (fields0, []) /\
     fields_run (parse_type_def f2 C S frs) C S frs f2 cn t (Some tvs)
                (add_typename_field true fields0) (pa ++ [cn]) pfl extra qp false /\
     qc = {| c_name := cn; c_bases := ["BaseModel"]; c_fields := pfl |} :: extra /\
@@ -397,7 +396,7 @@ Proof.
   intros H Hns. simpl in H. apply body_inv in H.
   destruct H as [[_ [_ [_ H]]] | [M [fields0 [mixins [pfl [extra [Hres [Hrun [kept [Hk Hout]]]]]]]]]];
     [discriminate|].
-  pose proof (resolve_no_spread _ _ _ _ _ _ _ Hns Hres) as Hm. simpl in Hm. subst mixins.
+  pose proof (resolve_no_spread _ _ _ _ _ _ _ _ Hns Hres) as Hm. simpl in Hm. subst mixins.
   exists fields0, pfl, extra. split; [exact Hres|]. split; [exact Hrun|]. split; [exact Hout|].
   intros pf vs Hin Ha. pose proof (fields_run_pf _ _ _ _ _ _ _ _ _ _ _ _ _ _ Hrun) as HF.
   destruct (Forall2_In_r _ _ _ _ HF Hin) as [f [_ [ctx Hpf]]].
